@@ -9,6 +9,9 @@ filesystem/posix.py) touches it only through
   file.write(bytes)    → `append p bytes`     (NOT atomic: a process death leaves any prefix of `bytes`)
   pathlib.Path.rename  → `rename p q`         (atomic, POSIX; a directory moves with everything below it)
   shutil.copyfile      → `copyFile p bytes`   (= createEmpty + append, see `Op.atoms`)
+  shutil.rmtree(p, ignore_errors=True) → `rmtree p`   (removes a directory with everything below; a missing path or a
+                                                        plain file is left alone; modelled as ONE step — its internal
+                                                        unlink/rmdir sequence is not split into crash points)
 
 A *crash* (process death) is a prefix of the atomic micro-op list of a call, possibly followed by a
 partial `append` (`crashOps`).  Core Lean only.
@@ -74,6 +77,7 @@ inductive Op where
   | append (p : Path) (b : Bytes)
   | rename (p q : Path)
   | copyFile (p : Path) (b : Bytes)
+  | rmtree (p : Path)
   deriving DecidableEq, Repr, Inhabited
 
 /-- `copyFile` is not atomic: it opens the target for writing and then writes -/
@@ -105,6 +109,9 @@ def step (fs : Fs) : Op → Option Fs
   | .copyFile p b =>
     -- whole, when it is not interrupted (`run` is always given `atomsAll`)
     if p ≠ [] ∧ get fs (parent p) = some .dir ∧ get fs p ≠ some .dir then some (set fs p (.file b)) else none
+  | .rmtree p =>
+    -- `ignore_errors=True`: never fails; only a directory (never the root) is removed
+    if p ≠ [] ∧ get fs p = some .dir then some (fs.filter (fun e => !(p <+: e.1))) else some fs
 
 /-- all of `ops` in order; `none` as soon as one fails -/
 def run (fs : Fs) : List Op → Option Fs
@@ -119,6 +126,13 @@ def runSome (fs : Fs) : List Op → Fs × Bool
   | op :: rest => match step fs op with
     | some fs' => runSome fs' rest
     | none => (fs, false)
+
+/-- how many operations succeed before the first one that fails -/
+def okCount (fs : Fs) : List Op → Nat
+  | [] => 0
+  | op :: rest => match step fs op with
+    | some fs' => okCount fs' rest + 1
+    | none => 0
 
 /-- nonempty prefixes of a path, shortest first -/
 def prefixes : Path → List Path
